@@ -212,7 +212,8 @@ class C20(core.Check):
             yield dict(fam='shell', text=gen_text(rnd, 25) + ' ' + gen_eq_text(rnd, self.ph_of(lang)) + '\n',
                        accept=rnd.choice(ACC) + rnd.choice(['', '||']), lang=lang, mode=rnd.choice(['displayed', 'inline', 'all']),
                        ml=rnd.random() < .3, xml=rnd.choice([None, 'xml', 'xml-b', 'xml-b']),
-                       cfg=rnd.choice([0, 0, 1, 2, 3, 4]))
+                       cfg=rnd.choice([0, 0, 1, 2, 3, 4]),
+                       lt=rnd.choice([None, None, r'\S+', r'\w', r'(?<!\S)\S(?!\S)|\S{4,}']))
         for i in range(nsh // 2):
             yield dict(fam='shelltex', s=rnd.getrandbits(48), accept=rnd.choice(['', 'A|I', 'a|x', 'I||', 'e.g.|K']))
 
@@ -405,12 +406,24 @@ class C20(core.Check):
             cnt['shell_options_from_config_file'] = 1
         elif os.path.exists(cfg):
             os.remove(cfg)
-        pr = subprocess.run(cmd, capture_output=True, timeout=180, cwd=self.tmp, env=env.child_env())
+        envx = env.child_env()
+        if case.get('lt'):
+            # the proofreader reports problems of its own, also at exactly the places of the shell's own messages
+            from .. import shellrun
+            planf = os.path.join(self.tmp, 'plan%d.json' % os.getpid())
+            with open(planf, 'w') as f:
+                json.dump({'mode': 'words', 'regex': case['lt']}, f)
+            envx = env.child_env({'YVM_LT_PLAN': planf})
+            cmd[cmd.index('--lt-command') + 1] = '%s -S %s' % (env.PY, shellrun.FAKELT)
+        pr = subprocess.run(cmd, capture_output=True, timeout=180, cwd=self.tmp, env=envx)
         err = pr.stderr.decode('utf-8', 'replace')
-        detail = dict(text=t, cmd=cmd[2:], stderr=err[-800:])
+        detail = dict(text=t, cmd=cmd[2:], stderr=err[-800:], lt=case.get('lt'))
         if pr.returncode != 0:
             return dict(ok=False, nt=True, key='shell:exit%d' % pr.returncode, cnt=cnt, obs=None, detail=detail)
         ms = json.loads(pr.stdout.decode('utf-8'))['matches']
+        own_places = {(m['offset'], m['length']) for m in ms if m['rule']['id'].startswith('PRIVATE::')}
+        if any((m['offset'], m['length']) in own_places for m in ms if not m['rule']['id'].startswith('PRIVATE::')):
+            cnt['shell_runs_with_coinciding_proofreader_match'] = 1
         ph = self.ph_of(case['lang'])
         accept = case['accept']
         if accept.endswith('||'):
@@ -436,7 +449,7 @@ class C20(core.Check):
             import xml.etree.ElementTree as ET
             xmode = case['xml']
             cmdx = [a if a != 'json' else xmode for a in cmd]
-            prx = subprocess.run(cmdx, capture_output=True, timeout=180, cwd=self.tmp, env=env.child_env())
+            prx = subprocess.run(cmdx, capture_output=True, timeout=180, cwd=self.tmp, env=envx)
             detail = dict(text=t, cmd=cmdx[2:], stderr=prx.stderr.decode('utf-8', 'replace')[-600:])
             if prx.returncode != 0:
                 return dict(ok=False, nt=True, key='shell:%s:exit%d' % (xmode, prx.returncode), cnt=cnt, obs=None, detail=detail)
@@ -476,7 +489,8 @@ class C20(core.Check):
     def quotas(self, tier):
         return {'fam_single': 20000, 'fam_eq': 10000, 'single_messages': 20000, 'single_accepted_letters': 3000,
                 'eq_messages': 1500, 'shell_runs': 200, 'shell_accept_placeholders': 40, 'shelltex_runs': 100,
-                'shelltex_messages_in_later_parts': 100, 'shelltex_repeated_part': 15, 'shell_xml_messages': 300, 'shell_options_from_config_file': 60}
+                'shelltex_messages_in_later_parts': 100, 'shelltex_repeated_part': 15, 'shell_xml_messages': 300, 'shell_options_from_config_file': 60,
+                'shell_runs_with_coinciding_proofreader_match': 30}
 
 
 CHECK = C20
